@@ -218,7 +218,8 @@ class PostgreSQLQueryBuilder(QueryBuilder):
                 querystring += self._limit_sql(ctx)
         else:
             querystring = super().get_sql(ctx)
-        if self._returns:
+        if self._returns and querystring:
+            # (an incomplete statement renders as the empty string: nothing to append RETURNING to)
             returning_ctx = ctx.copy(with_namespace=self._update_table and self.from_)
             querystring += self._returning_sql(returning_ctx)
         return querystring
